@@ -79,6 +79,18 @@ def coq_stage(ctx, mod):
             mod.regen(ctx)
         except Exception as e:  # fail-closed extractor
             ctx.oblige("T0 regeneration of Gen/*.v from /repo", False, f"{type(e).__name__}: {e}", "T0")
+    # Gen files of other properties that this one may Require (kept fresh; their own checks judge them)
+    import pkgutil
+    import gv.props as _P
+    for m in pkgutil.iter_modules(_P.__path__):
+        if m.name == ctx.prop.lower() or not m.name.startswith("c") or not m.name[1:].isdigit():
+            continue
+        try:
+            other = importlib.import_module(f"gv.props.{m.name}")
+            if hasattr(other, "regen"):
+                other.regen(Ctx(m.name.upper(), ctx.tier))
+        except Exception:  # noqa
+            pass
     ok, log, cmd = coq.build([f"theories/Properties/{ctx.prop}.vo"])
     ctx.checker_cmds.append(f"cd {env.COQ} && {cmd}")
     ctx.notes["build_ok"] = ok
